@@ -1,8 +1,8 @@
 (* C02: what an update specification must do to a document, written from the statement as
    decidable laws on the pair (document before, document after).  Definitions only. *)
 From Coq Require Import ZArith List String Bool DecimalString.
-From Verif Require Import Value PyEq BsonOrder Path Filter FilterSpec Update Project Coll
-                          HistCheck HistProps ProjectSpec Cursor.
+From Verif Require Import Value PyEq BsonOrder Path Filter FilterSpec FilterGuard Update Project
+                          Coll HistCheck HistProps ProjectSpec Cursor.
 Import ListNotations.
 Open Scope Z_scope.
 Open Scope string_scope.
@@ -296,15 +296,114 @@ Definition c02_step (x : ctx) (o : op) (ob : obs) : bool :=
 Definition c02_ok (ops : list op) (os : list obs) : bool := trace_all c02_step ctx0 ops os.
 
 (* guard: 1 = an addressed path component is not an index although the value there is an
-   array, or a path is addressed twice (conflicting operators) - undecided; 2 = F-MINMAX
-   ($min/$max across type classes use Python's order / raise TypeError) is covered by op_law
-   returning None; 4 = TTL index in the history (documents vanish) *)
+   array (see bit 16), or a path is addressed twice (conflicting operators) - undecided;
+   4 = TTL index in the history (documents vanish); 8, 16, 32, 64, 128: see below *)
 Definition pull_dotted (u : value) : bool :=
   match u with
   | VDoc ufs => match assoc "$pull" ufs with
                 | Some (VDoc fields) => existsb (fun f => has_dot (fst f)) fields
                 | _ => false end
   | _ => false
+  end.
+
+(* helpers of the guard bits 8, 16, 32, 64, 128 (found by the proofs, see Refuted/C02.v and
+   Refuted/C02OpLaw.v); the state-dependent bits look at the documents the filter selects *)
+(* a numeric path component in canonical decimal form ("1", not "01") *)
+Definition canon_part (s : string) : bool :=
+  match as_index s with
+  | Some i => s =? string_of_nat (Z.to_nat i)
+  | None => true
+  end.
+Definition canon_paths (u : value) : bool := forallb (forallb canon_part) (addressed u).
+
+(* the path fits the document: wherever the value reached is an array the component is an
+   index (otherwise _update_document_single_field swallows the ValueError of int(part) and
+   carries on with the NEXT component on the same array) *)
+Fixpoint fits (parts : list string) (d : value) : bool :=
+  match parts with
+  | [] => true
+  | p :: rest =>
+      match d with
+      | VDoc fs => match assoc p fs with Some x => fits rest x | None => true end
+      | VArr xs =>
+          match as_index p with
+          | Some i => match nth_error xs (Z.to_nat i) with Some x => fits rest x | None => true end
+          | None => false
+          end
+      | _ => true
+      end
+  end.
+Definition fits_all (u d : value) : bool := forallb (fun q => fits q d) (addressed u).
+
+(* $min/$max of a field whose current value is in another BSON type class than the operand *)
+Definition minmax_cross_field (p : string) (arg d : value) : bool :=
+  match at_path p d with
+  | Some o => negb (class_rank o =?? class_rank (patch arg))
+  | None => false
+  end.
+Definition minmax_cross (u d : value) : bool :=
+  match u with
+  | VDoc ufs =>
+      existsb (fun kv =>
+        ((fst kv =? "$min") || (fst kv =? "$max")) &&
+        match snd kv with
+        | VDoc fields => existsb (fun f => minmax_cross_field (fst f) (snd f) d) fields
+        | _ => false
+        end) ufs
+  | _ => false
+  end.
+
+(* $addToSet decides membership with Python == (True == 1, dict equality ignores key order):
+   the old array and the operand mix bools and numbers, or the operand holds a sub-document *)
+Definition addtoset_eq_risk (p : string) (arg d : value) : bool :=
+  match at_path p d with
+  | Some x => has_doc arg || negb ((negb (has_bool x) && negb (has_bool arg))
+                                   || (negb (has_num x) && negb (has_num arg)))
+  | None => false
+  end.
+Definition addtoset_cross (u d : value) : bool :=
+  match u with
+  | VDoc ufs =>
+      existsb (fun kv =>
+        (fst kv =? "$addToSet") &&
+        match snd kv with
+        | VDoc fields => existsb (fun f => addtoset_eq_risk (fst f) (patch (snd f)) d) fields
+        | _ => false
+        end) ufs
+  | _ => false
+  end.
+
+(* replacement: the model keeps the replacement's _id when it carries one (only compared with
+   Python == against the old one) and otherwise the value of the FILTER's "_id" key when the
+   filter has one (an operator document such as {"$gt": 0} included): the law (the _id is
+   kept) needs those to be structurally the document's _id *)
+Definition replace_id_risk (spec r d : value) : bool :=
+  match r with
+  | VDoc rfs =>
+      match assoc "_id" rfs with
+      | Some rv => negb (opt_value_eqb (doc_id d) (Some rv))
+      | None =>
+          match spec with
+          | VDoc sfs => match assoc "_id" sfs with
+                        | Some i => negb (opt_value_eqb (doc_id d) (Some i))
+                        | None => false
+                        end
+          | _ => false
+          end
+      end
+  | _ => false
+  end.
+
+(* the document is selected by the (normalised) filter *)
+Definition matched (f d : value) : bool :=
+  match filter_applies (patch f) d with Ok true => true | _ => false end.
+
+(* some step whose operation and pre-state satisfy p (the pre-state of a step is the store
+   observed after the previous one) *)
+Fixpoint any_step (p : store -> op -> bool) (s : store) (ops : list op) (os : list obs) : bool :=
+  match ops, os with
+  | o :: ops', (_, s', _) :: os' => p s o || any_step p s' ops' os'
+  | _, _ => false
   end.
 
 Definition c02_reasons (ops : list op) (os : list obs) : Z :=
@@ -315,7 +414,45 @@ Definition c02_reasons (ops : list op) (os : list obs) : Z :=
   + (if existsb (fun o => match o with OUpdate _ u _ _ => pull_dotted u | _ => false end) ops
      then 2 else 0)
   + (if existsb (fun o => match o with OCreateIndex _ _ _ (Some _) _ _ => true | _ => false end) ops
-     then 4 else 0).
+     then 4 else 0)
+  (* 8 = F-INDEX-LEADING-ZERO: an addressed path has a numeric component that is not in
+     canonical decimal form: {$set: {"a.01": 5}} on {a: [1,2,3]} writes a[1] (int("01") = 1),
+     an element the specification does not address (the server treats "01" as a field name) *)
+  + (if existsb (fun o => match o with OUpdate _ u _ _ => negb (canon_paths u) | _ => false end) ops
+     then 8 else 0)
+  (* 16 = F-ARRAY-SKIP: an addressed path has a non-index component where a stored document
+     has an array: the component is skipped and the rest of the path is applied to the array
+     itself: {$set: {"a.b.0": 5}} on {a: [1,2,3]} writes a[0] *)
+  + (if any_step (fun s o => match o with
+                             | OUpdate f u _ _ =>
+                                 existsb (fun kd => matched f (snd kd) && negb (fits_all u (snd kd))) s
+                             | _ => false end) [] ops os
+     then 16 else 0)
+  (* 32 = F-MINMAX: $min/$max between values of different BSON type classes use Python's
+     order where it is defined (bool is a number: {$max: {a: 5}} on {a: true} stores 5; the
+     BSON order ranks every bool above every number) and raise TypeError elsewhere *)
+  + (if any_step (fun s o => match o with
+                             | OUpdate f u _ _ =>
+                                 existsb (fun kd => matched f (snd kd) && minmax_cross u (snd kd)) s
+                             | _ => false end) [] ops os
+     then 32 else 0)
+  (* 64 = F-ADDTOSET-PYEQ: $addToSet tests membership with Python ==: {$addToSet: {a: true}} on
+     {a: [1]} adds nothing (True == 1), a sub-document operand equal up to key order to an
+     element is not added *)
+  + (if any_step (fun s o => match o with
+                             | OUpdate f u _ _ =>
+                                 existsb (fun kd => matched f (snd kd) && addtoset_cross u (snd kd)) s
+                             | _ => false end) [] ops os
+     then 64 else 0)
+  (* 128 = F-REPLACE-FILTER-ID: replace_one({_id: {$gt: 0}}, {a: 2}) stores the filter's operator
+     document as the _id; {_id: 1.0} as filter turns the stored _id 1 into 1.0; a replacement
+     carrying _id: true replaces _id 1 (only Python == is checked) *)
+  + (if any_step (fun s o => match o with
+                             | OReplace f r _ =>
+                                 existsb (fun kd => matched f (snd kd)
+                                                    && replace_id_risk (patch f) (patch r) (snd kd)) s
+                             | _ => false end) [] ops os
+     then 128 else 0).
 
 Definition c02_check (h : hist_case) : Z :=
   let reasons := c02_reasons (h_ops h) (h_obs h) in
